@@ -387,6 +387,10 @@ def _is_500(fi: FunctionInfo, cfg: CFG, e: ast.expr | None, at: ast.AST) -> bool
     return False
 
 
+# what user code may raise: the generic class first, builtins commonly special-cased, an Arrow error, and a user-defined Exception subclass
+USER_EXC_CLASSES = ("Exception", "TypeError", "ValueError", "KeyError", "AttributeError", "RuntimeError", "LookupError", "OSError", "ArrowInvalid", "UserDefinedServiceError")
+
+
 def _dispatch_sites(ctx: Ctx, model: ExcModel) -> None:
     sites = [
         (SERVE_UNARY, "pipe", False), (SERVE_STREAM, "pipe", False), (HTTP_UNARY, "http", True), (HTTP_INIT, "http", True),
@@ -398,35 +402,48 @@ def _dispatch_sites(ctx: Ctx, model: ExcModel) -> None:
         cfg = cfg_of(fi.node)
         for role, c in _user_calls(fi):
             n_sites += 1
-            h = None
-            for t in try_protecting(cfg, c):
-                h = model.first_covering(t, "Exception")
-                if h is not None:
-                    break
             inst = f"{transport}:{fi.name}:{role}"
-            if h is None or not h.name:
-                ctx.fail("RF-EXC", f"site-faithful:{inst}", fi, c, "an exception raised by user code here is not caught by a handler that binds it: nothing faithful can be serialised")
-                continue
-            if handler_reraises(h):
-                ctx.fail("RF-EXC", f"site-faithful:{inst}", fi, h, "the handler re-raises: the implementation's exception leaves the dispatcher instead of being serialised as an RPC error")
-                continue
-            body_nodes = [x for st in h.body for x in walk_scope(st)]
-            writes = [x for x in body_nodes if isinstance(x, ast.Call) and last_attr(x) in ("_write_error_batch", "_write_error_stream")]
-            raises = [x for x in body_nodes if isinstance(x, ast.Raise) and isinstance(x.exc, ast.Call) and last_attr(x.exc) == "_RpcHttpError"]
-            ser = [w for w in writes if len(w.args) > 2 and isinstance(w.args[2], ast.Name) and w.args[2].id == h.name or (kw(w, "exc") is not None and txt(kw(w, "exc")) == h.name)]
-            ser_r = [r for r in raises if r.exc.args and isinstance(r.exc.args[0], ast.Name) and r.exc.args[0].id == h.name]  # type: ignore[union-attr]
-            ctx.check(bool(ser or ser_r), "RF-TAINT", f"site-faithful:{inst}", fi, h,
-                      ok=f"the caught exception object `{h.name}` itself is serialised (class name, text, error_kind all come from it)",
-                      bad="the handler does not serialise the caught exception object (a wrapper / different exception is sent: type, message or error_kind are lost)")
-            if is_http:
-                ok500 = False
-                for r in ser_r:
-                    ok500 = ok500 or _is_500(fi, cfg, kw(r.exc, "status_code"), r)  # type: ignore[arg-type]
-                for w in ser:
-                    sig = _signals_500(fi, cfg, h)
-                    ok500 = ok500 or bool(sig)
-                ctx.check(ok500, "RF-DOM", f"site-signals-500:{inst}", fi, h, ok="the handler maps the implementation error to the 500 signal (answered as 200 + X-VGI-RPC-Error)",
-                          bad="the handler serialises the error but does not signal INTERNAL_SERVER_ERROR: the response is an unmarked 200 (or a 4xx blaming the caller)")
+            # per exception class: the FIRST handler (innermost try outward, clauses in order) that catches the class decides
+            # how an implementation error of that class is answered
+            by_handler: dict[int, tuple[ast.ExceptHandler | None, list[str]]] = {}
+            for cls in USER_EXC_CLASSES:
+                h = None
+                for t in try_protecting(cfg, c):
+                    hh = model.first_covering(t, cls)
+                    if hh is None:
+                        continue
+                    passes_on = handler_reraises(hh) and not any(isinstance(x, ast.Call) and last_attr(x) in ("_write_error_batch", "_write_error_stream") for st in hh.body for x in walk_scope(st))
+                    if passes_on:
+                        continue  # logs / cleans up and re-raises unchanged: the next enclosing try decides
+                    h = hh
+                    break
+                by_handler.setdefault(id(h), (h, []))[1].append(cls)
+            for h, classes in by_handler.values():
+                generic = "Exception" in classes
+                key = inst if generic else f"{inst}:{classes[0]}"
+                what = "any exception" if generic else "/".join(classes)
+                if h is None or not h.name:
+                    ctx.fail("RF-EXC", f"site-faithful:{key}", fi, c, f"{what} raised by user code here is not caught by a handler that binds it: nothing faithful can be serialised")
+                    continue
+                if handler_reraises(h):
+                    ctx.fail("RF-EXC", f"site-faithful:{key}", fi, h, f"the handler for {what} re-raises: the implementation's exception leaves the dispatcher instead of being serialised as an RPC error")
+                    continue
+                body_nodes = [x for st in h.body for x in walk_scope(st)]
+                writes = [x for x in body_nodes if isinstance(x, ast.Call) and last_attr(x) in ("_write_error_batch", "_write_error_stream")]
+                raises = [x for x in body_nodes if isinstance(x, ast.Raise) and isinstance(x.exc, ast.Call) and last_attr(x.exc) == "_RpcHttpError"]
+                ser = [w for w in writes if len(w.args) > 2 and isinstance(w.args[2], ast.Name) and w.args[2].id == h.name or (kw(w, "exc") is not None and txt(kw(w, "exc")) == h.name)]
+                ser_r = [r for r in raises if r.exc.args and isinstance(r.exc.args[0], ast.Name) and r.exc.args[0].id == h.name]  # type: ignore[union-attr]
+                ctx.check(bool(ser or ser_r), "RF-TAINT", f"site-faithful:{key}", fi, h,
+                          ok=f"for {what} the caught exception object `{h.name}` itself is serialised (class name, text, error_kind all come from it)",
+                          bad=f"the first handler catching {what} does not serialise the caught exception object (a wrapper / different exception is sent: type, message or error_kind are lost)")
+                if is_http:
+                    ok500 = False
+                    for r in ser_r:
+                        ok500 = ok500 or _is_500(fi, cfg, kw(r.exc, "status_code"), r)  # type: ignore[arg-type]
+                    if ser:
+                        ok500 = ok500 or bool(_signals_500(fi, cfg, h))
+                    ctx.check(ok500, "RF-DOM", f"site-signals-500:{key}", fi, h, ok=f"the first handler catching {what} maps the implementation error to the 500 signal (answered as 200 + X-VGI-RPC-Error)",
+                              bad=f"{what} raised by the implementation is caught by a handler that does not signal INTERNAL_SERVER_ERROR: the error is answered as an unmarked 200 or as a 4xx blaming the caller")
     ctx.require_count("RF-EXC", n_sites, 7, "user-code dispatch sites (method / process) on pipe and HTTP")
     # HTTP exchange init: unpacking the user's Stream object and serialising state is guarded the same way
     ei = ctx.fn(f"{APPS}:_run_http_exchange_init")
